@@ -812,7 +812,10 @@ func checkFatigue(method string, e *biasEvent, st *eventStats) []issue {
 			} else {
 				lo, hi := in.rng(cr)
 				l, h := boundVal(v-d, e.Props, lo, hi), boundVal(v+d, e.Props, lo, hi)
-				if w < l-1e-9*(1+math.Abs(l)) || w > h+1e-9*(1+math.Abs(h)) {
+				if f == 0 && w == v {
+					// "f = 0 leaves all data unchanged" and "the moved value is bounded" can both be read as applying to a
+					// value that already lies outside the bounds; either outcome (v itself, or v bounded) is accepted
+				} else if w < l-1e-9*(1+math.Abs(l)) || w > h+1e-9*(1+math.Abs(h)) {
 					add("fatigue-bounding", fmt.Sprintf("%s/%s moved %v -> %v, outside the bounded band [%v,%v] (f=%v, range [%v,%v], props %v)", a.Id, cr.Id, v, w, l, h, f, lo, hi, e.Props))
 					return is
 				}
